@@ -8,7 +8,7 @@ from lib.vlib import *
 META = {
     "property_id": "C08",
     "technique": "Coq proof (termination, coverage, determinism and sensitivity of the environment traversal) + reified-graph correspondence + edit-menu oracle on real loads "
-                 "+ collection-size/position sweep + value-space families (every representation boundary of every scalar kind, confusable kinds and shapes, host kinds) + schedule families (controlled interleavings, free goroutines, the runner; race detector) + process-history family (every fingerprint after failed and successful computations in the same process = the one computed alone in a fresh process; fault injection at every depth of the pickle)",
+                 "+ collection-size/position sweep + value-space families (every representation boundary of every scalar kind, confusable kinds and shapes, host kinds) + related-values families (a function referencing two values derived from one object: aliases, slices sharing storage, equal copies, ==-equal values of another kind, parts; model of the encoder's value memo) + schedule families (controlled interleavings, free goroutines, the runner; race detector) + process-history family (every fingerprint after failed and successful computations in the same process = the one computed alone in a fresh process; fault injection at every depth of the pickle)",
     "level_text": "Theorems (Coq, all graphs): fingerprint_terminates (the traversal done by recursionPickler/envPickler under the "
                   "encoder's memo terminates on every function graph, recursion and mutual recursion included); "
                   "fingerprint_covers_reachable (the code of every reachable function is in the fingerprint); "
@@ -18,7 +18,9 @@ META = {
                   "isomorphic, so every difference in a reachable code or in which function a reference denotes shows; it rests on the "
                   "placeholder of a function in progress carrying the function's ordinal, function.go since 7738be5 -- the finding of the "
                   "earlier, name-only model: same-named functions in progress); iso_relates_every_reachable_function; fingerprint_sensitive_to_payload (change the code identity -- bytecode, constants, every non-function value, which builtin, which range -- "
-                  "of ONE function reachable from the target and nothing else: the fingerprint is unequal). Tie: the harness "
+                  "of ONE function reachable from the target and nothing else: the fingerprint is unequal); value_memo_roundtrip / value_memo_sensitive / value_memo_deterministic (Fingerprint/ValueMemo.v, the encoder's memo over the values a function references: "
+                  "when two values filed under one memo key always have the same content, what the reader resolves from the emission -- back-references included -- is exactly what is referenced, so every change of a referenced value shows whatever shares what with what, and the emission does not depend on the keys (addresses) themselves; "
+                  "unfaithful_key_refuted: a key that forgets part of the value, e.g. a tuple's first-element address, gives one emission for T[:2] and T[:3]). Tie: the harness "
                   "replays the encoder's traversal over the live function graph of each program's target and the Coq model must reproduce "
                   "the token tree seen in the implementation's decoded fingerprint: expanded function environments, placeholders WITH their "
                   "ordinals, repeated (memo-referenced) function environments with the ordinal of the function referred to. "
@@ -37,6 +39,9 @@ META = {
                   "each referenced by functions of identical code through 8 routes (captured, default, element of a captured list / tuple / set, dict value, dict key, nested): any two targets of a route that reference different values "
                   "(decided on the live objects) have different fingerprints, equal text re-loaded gives equal ones, functionEnv succeeds; and one load per value of a selection of a project referencing it as a global, a literal, "
                   "a literal default, a global of a load()ed file, in a global list, as a dict key: per route the fingerprints of all these edits of the project text are pairwise different. "
+                  "Related values (one process): for every base value A of every collection kind (tuples of strings / ints / equal elements / nested / seeded random, string, bytes, list, range, dict, host values, 300 lists, a 2003-tuple) and every ordered pair (d1, d2) of a menu of derivations -- A itself, prefix / suffix / inner / stepped / reversed / full slices, A + empty, rebuilt and constructor copies, "
+                  "the ==-equal elements of another kind, one element changed, elements and slices of elements, views -- a function of identical code referencing (d1(A), d2(A)) through 3 routes (both captured, both defaults, in one list), all computed from the ONE object A: any two that reference structurally different live values have different fingerprints; "
+                  "and one load per (A, d) of a project A = ..; B = d(A) whose targets reference A and B as globals in both orders, as defaults, in a global list and through load(): per target the fingerprints of all these edits of module-level code are pairwise different whenever the live B differs. "
                   "Schedules: the fingerprint of a target is the one computed alone when another target is fingerprinted inside every single write of its pickling, when all "
                   "targets are fingerprinted at once by one goroutine each, and when the real runner builds them as independent dependencies (records = stamps computed alone, a fresh load "
                   "finds them up to date); the race detector reports no memory shared between two targets' fingerprint computations. "
@@ -51,7 +56,8 @@ META = {
                   "of the function referred to (the stamp has a memo id, the decoded value the shared object: both determine it); "
                   "the Starlark compiler is not modelled (the reifier reads live objects through the same accessors envPickler uses and "
                   "replays the encoder's memo for containers and code objects); "
-                  "determinism and sensitivity for value kinds are decided by the harness on a fixed program menu, not by a theorem.",
+                  "determinism and sensitivity for value kinds are decided by the harness on a fixed program menu, not by a theorem; "
+                  "the value-memo theorems assume the memo key is faithful (same key => same content), which is a fact about Go identity of the comparable kinds and is what the related-values family tests on the implementation.",
     "design_ref": "DESIGN.md §6 C08",
 }
 
@@ -166,13 +172,16 @@ def run(ctx):
                             "Value space: a pool of %d values (%s), one target per (route, value) for 8 routes in one load (all functions of a route the same code), fingerprints pairwise different per route; "
                             "%d loads of a 6-route project (global, literal, default, load()ed global, in a global list, dict key), one per value of the selection (class boundaries, random relatives, kinds, shapes, host kinds), "
                             "pairwise different per route. "
+                            "Related values: %d base values x all ordered pairs of their 9-26 derivations (thorough: more slices, 12 random tuples) x 3 routes = %d functions of one load, fingerprinted as targets are; "
+                            "%d loads of the 6-target project A = ..; B = d(A), one per (base, derivation); structurally different live values must give different fingerprints. "
                             "Schedules: k independent targets each referencing a value of every codec kind (all values distinct): target B fingerprinted inside EVERY write of target A's pickling, "
                             "one goroutine per target fingerprinting at once, the real runner building a target that depends on all k then a fresh load; each must give the fingerprints computed alone; "
                             "the same once more under the race detector. "
                             "Process history: one project (c08HistText: 12 good targets, 5 fuse targets x 4 fuse attributes + 1 unpicklable = 21 fault sources, 6 string/bytes views x 2 routes), reference = one fresh process per target; "
                             "H0 every target once in a seeded order, H1 every fault source (half the time after a second one) before every good and every disarmed fuse target, H2 1500 (thorough 20000) seeded random steps, "
                             "H3 6 (30) engine rounds; every observation compared with the reference" % (len({c[0] for c in cases if not c[0].startswith(FAMILIES)}), values_info.get("pool", 0),
-                                                                               ", ".join("%s %d" % kv for kv in sorted(values_info.get("pool_classes", {}).items())), values_info.get("edit_loads", 0)))
+                                                                               ", ".join("%s %d" % kv for kv in sorted(values_info.get("pool_classes", {}).items())), values_info.get("edit_loads", 0),
+                                                                               alias_info.get("bases", 0), alias_info.get("pair_targets", 0), alias_info.get("edit_loads", 0)))
     ctx.coverage["correspondence"]["distribution"] = {"programs": len({c[0] for c in cases if not c[0].startswith(FAMILIES)}),
                                                       "edits": len([c for c in cases if not c[0].startswith(FAMILIES)]), "graphs": len(graphs),
                                                       "collection_sizes": len({c[0].split("/")[0] for c in cases if c[0].startswith("collections-")}),
